@@ -199,18 +199,17 @@ open ScionTime.F64 ScionTime.FreqDrift
 
 /-! ### frequency → scaled ppm → frequency
 
-Full statement of the design: for every finite double `f` with `|f| ≤ 500e-6`,
-`|FreqFromScaledPPM (ScaledPPMFromFreq f) − f| ≤ one scaled-ppm unit (1/65536e6)` up to rounding.
-Proved below for `1/65536e6 ≤ |f| ≤ 1/2000` (both signs) and for `±0`.
-GAP (hence `_partial`): non-zero `|f|` below one unit — the product `f·65536e6` may then be
-smaller than 2^-64 (down to subnormal), outside the range of `round_step`; the conclusion
-(result 0 or ±1 unit, error below one unit) needs a monotonicity lemma for `roundNE` that is
-not proved here. Infinities and NaN are outside the property's quantifier
-(`int64(f*…)` yields MinInt64 for them — exercised by the correspondence, boundary stream). -/
+`C18_freq_roundtrip` (end of file) is the full statement: for every finite non-zero double `f`
+with `|f| ≤ 500e-6`, `|FreqFromScaledPPM (ScaledPPMFromFreq f) − f| ≤ one scaled-ppm unit
+(1/65536e6)` up to rounding; `C18_freq_roundtrip_zero` covers `±0`. It is assembled from four
+ranges: at least one unit (sharper, one-sided bounds: the round trip truncates towards zero)
+and below one unit (where `f·65536e6` may underflow: `roundNE_small_pos/neg`), each sign.
+Infinities and NaN are outside the property's quantifier (`int64(f*…)` yields MinInt64 for
+them — exercised by the correspondence's boundary stream). -/
 
 /-- Positive frequencies from one unit (2^-16 ppm) up to 500 ppm: the round trip is never
     above `f` by more than rounding noise (10^-6 unit) and below it by at most one unit. -/
-theorem C18_freq_roundtrip_pos_partial (F : Rat) (h1 : 1 / 65536000000 ≤ F) (h2 : F ≤ 1 / 2000) :
+theorem C18_freq_roundtrip_pos (F : Rat) (h1 : 1 / 65536000000 ≤ F) (h2 : F ≤ 1 / 2000) :
     isFinite (freqFromScaledPPM (scaledPPMFromFreq (.fin F))) = true ∧
     (toRat (freqFromScaledPPM (scaledPPMFromFreq (.fin F))) - F) * 65536000000 ≤ 1 / 1000000 ∧
     (F - toRat (freqFromScaledPPM (scaledPPMFromFreq (.fin F)))) * 65536000000 ≤ 1 + 1 / 1000000 := by
@@ -259,7 +258,7 @@ theorem C18_freq_roundtrip_pos_partial (F : Rat) (h1 : 1 / 65536000000 ≤ F) (h
     constructor <;> grind
 
 /-- Reverse direction, negative frequencies (mirror image). -/
-theorem C18_freq_roundtrip_neg_partial (F : Rat) (h1 : F ≤ -(1 / 65536000000)) (h2 : -(1 / 2000) ≤ F) :
+theorem C18_freq_roundtrip_neg (F : Rat) (h1 : F ≤ -(1 / 65536000000)) (h2 : -(1 / 2000) ≤ F) :
     isFinite (freqFromScaledPPM (scaledPPMFromFreq (.fin F))) = true ∧
     (F - toRat (freqFromScaledPPM (scaledPPMFromFreq (.fin F)))) * 65536000000 ≤ 1 / 1000000 ∧
     (toRat (freqFromScaledPPM (scaledPPMFromFreq (.fin F))) - F) * 65536000000 ≤ 1 + 1 / 1000000 := by
@@ -322,5 +321,122 @@ theorem C18_freq_roundtrip_zero (b : Bool) :
   rw [h3]
   have : decide ((65536000000 : Rat) < 0) = false := by simp; grind
   rw [this]; rfl
+
+end ScionTime.C18
+
+namespace ScionTime.C18
+open ScionTime.F64 ScionTime.FreqDrift
+
+/-- Below one unit (positive): the result is 0 or one unit; the error stays within one unit. -/
+theorem C18_freq_roundtrip_pos_small (F : Rat) (h1 : 0 < F) (h2 : F < 1 / 65536000000) :
+    isFinite (freqFromScaledPPM (scaledPPMFromFreq (.fin F))) = true ∧
+    (toRat (freqFromScaledPPM (scaledPPMFromFreq (.fin F))) - F) * 65536000000 ≤ 1 + 1 / 1000000 ∧
+    (F - toRat (freqFromScaledPPM (scaledPPMFromFreq (.fin F)))) * 65536000000 ≤ 1 + 1 / 1000000 := by
+  unfold scaledPPMFromFreq freqFromScaledPPM
+  rw [C18_scale_exact]
+  have hmul : F64.mul (.fin F) (.fin 65536000000) = roundNE (F * 65536000000) := rfl
+  rw [hmul]
+  have hzero : F64.div (ofInt 0) (.fin 65536000000) = .zero false := by
+    rw [ofInt_zero]
+    have : F64.div (.zero false) (.fin 65536000000) = .zero (false != decide ((65536000000 : Rat) < 0)) := rfl
+    rw [this]
+    have : decide ((65536000000 : Rat) < 0) = false := by rw [decide_eq_false_iff_not]; grind
+    rw [this]; rfl
+  rcases roundNE_small_pos (F * 65536000000) (by grind) (by grind) with hz | ⟨v, hv, v0, v1⟩
+  · rw [hz]
+    have : toInt64 (.zero false) = 0 := rfl
+    rw [this, hzero]
+    simp only [isFinite, toRat, true_and]
+    constructor <;> grind
+  · rw [hv]
+    unfold toInt64
+    have hvn : ¬ v < 0 := by grind
+    simp only [hvn, if_false]
+    have hfl0 : 0 ≤ v.floor := Rat.le_floor_iff.mpr (by simpa using Rat.le_of_lt v0)
+    have hfl1 : v.floor < 2 := Rat.floor_lt_iff.mpr (by simp; grind)
+    rw [if_neg (by omega)]
+    generalize v.floor = y at *
+    have hy : y = 0 ∨ y = 1 := by omega
+    rcases hy with rfl | rfl
+    · rw [hzero]
+      simp only [isFinite, toRat, true_and]
+      constructor <;> grind
+    · rw [ofInt_exact 1 (by decide) (by decide) (by decide)]
+      have hdiv : F64.div (.fin ((1 : Int) : Rat)) (.fin 65536000000) = roundNE (((1 : Int) : Rat) / 65536000000) := rfl
+      rw [hdiv]
+      have h1c : ((1 : Int) : Rat) = 1 := rfl
+      rw [h1c]
+      obtain ⟨_, b2⟩ := absR_eq ((1 : Rat) / 65536000000)
+      have b2' := b2 (by grind)
+      obtain ⟨r, hr, hrp, _⟩ := round_step ((1 : Rat) / 65536000000) (by grind) (by rw [b2']; grind) (by rw [b2']; grind)
+      obtain ⟨r0, r1, r2⟩ := hrp (by grind)
+      rw [hr]
+      simp only [isFinite, toRat, true_and]
+      constructor <;> grind
+
+/-- Below one unit (negative). -/
+theorem C18_freq_roundtrip_neg_small (F : Rat) (h1 : F < 0) (h2 : -(1 / 65536000000) < F) :
+    isFinite (freqFromScaledPPM (scaledPPMFromFreq (.fin F))) = true ∧
+    (toRat (freqFromScaledPPM (scaledPPMFromFreq (.fin F))) - F) * 65536000000 ≤ 1 + 1 / 1000000 ∧
+    (F - toRat (freqFromScaledPPM (scaledPPMFromFreq (.fin F)))) * 65536000000 ≤ 1 + 1 / 1000000 := by
+  unfold scaledPPMFromFreq freqFromScaledPPM
+  rw [C18_scale_exact]
+  have hmul : F64.mul (.fin F) (.fin 65536000000) = roundNE (F * 65536000000) := rfl
+  rw [hmul]
+  have hzero : F64.div (ofInt 0) (.fin 65536000000) = .zero false := by
+    rw [ofInt_zero]
+    have : F64.div (.zero false) (.fin 65536000000) = .zero (false != decide ((65536000000 : Rat) < 0)) := rfl
+    rw [this]
+    have : decide ((65536000000 : Rat) < 0) = false := by rw [decide_eq_false_iff_not]; grind
+    rw [this]; rfl
+  rcases roundNE_small_neg (F * 65536000000) (by grind) (by grind) with hz | ⟨v, hv, v0, v1⟩
+  · rw [hz]
+    have : toInt64 (.zero true) = 0 := rfl
+    rw [this, hzero]
+    simp only [isFinite, toRat, true_and]
+    constructor <;> grind
+  · rw [hv]
+    unfold toInt64
+    simp only [v0, if_true]
+    have hfl0 : 0 ≤ (-v).floor := Rat.le_floor_iff.mpr (by simp; grind)
+    have hfl1 : (-v).floor < 2 := Rat.floor_lt_iff.mpr (by simp; grind)
+    rw [if_neg (by omega)]
+    generalize (-v).floor = w at *
+    have hw : w = 0 ∨ w = 1 := by omega
+    rcases hw with rfl | rfl
+    · have : (-(0 : Int)) = 0 := rfl
+      rw [this, hzero]
+      simp only [isFinite, toRat, true_and]
+      constructor <;> grind
+    · rw [ofInt_exact (-1) (by decide) (by decide) (by decide)]
+      have hdiv : F64.div (.fin ((-1 : Int) : Rat)) (.fin 65536000000) = roundNE (((-1 : Int) : Rat) / 65536000000) := rfl
+      rw [hdiv]
+      have h1c : ((-1 : Int) : Rat) = -1 := rfl
+      rw [h1c]
+      obtain ⟨b1, _⟩ := absR_eq ((-1 : Rat) / 65536000000)
+      have b1' := b1 (by grind)
+      obtain ⟨r, hr, _, hrn⟩ := round_step ((-1 : Rat) / 65536000000) (by grind) (by rw [b1']; grind) (by rw [b1']; grind)
+      obtain ⟨r0, r1, r2⟩ := hrn (by grind)
+      rw [hr]
+      simp only [isFinite, toRat, true_and]
+      constructor <;> grind
+
+/-- freq_roundtrip (full): for every double `f` (finite, given by its rational value `F`, or a
+    zero) with `|f| ≤ 500 ppm`, `FreqFromScaledPPM (ScaledPPMFromFreq f)` is finite and differs
+    from `f` by at most one scaled-ppm unit (1/65536e6) plus 10^-6 of a unit of rounding. -/
+theorem C18_freq_roundtrip (F : Rat) (h1 : -(1 / 2000) ≤ F) (h2 : F ≤ 1 / 2000) (h0 : F ≠ 0) :
+    isFinite (freqFromScaledPPM (scaledPPMFromFreq (.fin F))) = true ∧
+    (toRat (freqFromScaledPPM (scaledPPMFromFreq (.fin F))) - F) * 65536000000 ≤ 1 + 1 / 1000000 ∧
+    (F - toRat (freqFromScaledPPM (scaledPPMFromFreq (.fin F)))) * 65536000000 ≤ 1 + 1 / 1000000 := by
+  by_cases hp : 0 < F
+  · by_cases hs : F < 1 / 65536000000
+    · exact C18_freq_roundtrip_pos_small F hp hs
+    · obtain ⟨a, b, c⟩ := C18_freq_roundtrip_pos F (by grind) h2
+      exact ⟨a, by grind, c⟩
+  · have hn : F < 0 := by grind
+    by_cases hs : -(1 / 65536000000) < F
+    · exact C18_freq_roundtrip_neg_small F hn hs
+    · obtain ⟨a, b, c⟩ := C18_freq_roundtrip_neg F (by grind) h1
+      exact ⟨a, c, by grind⟩
 
 end ScionTime.C18
